@@ -18,7 +18,8 @@ META = {
         "kind=chain: chains of 2-10 generated recording classes (controller head, decorators, pool or "
         "composite-like tail; signatures mixing positional, defaulted, keyword-only, *args, **kwargs) under a "
         "random parenthesisation of the >> operators, 3 tail forms (instance / template / curried template) "
-        "and each element's arguments split over 0-4 template calls; kind=paren: ALL parenthesisations for "
+        "and each element's arguments split over 0-4 template calls, every chain built twice from the same "
+        "template and pending sub-chain objects; kind=paren: ALL parenthesisations for "
         "2-7 elements x 3 tail forms (exhaustive); kind=eager: sequences of template calls with valid and "
         "invalid argument lists against generated and shipped classes, each call judged by the binding model; "
         "kind=shipped: pipelines of the shipped controllers/decorators/composites vs hand nesting. "
@@ -275,19 +276,58 @@ def run_chain(case, result):
     prebuilt = list(LOG)
     del LOG[:]
 
-    def evaluate(tree):
+    memo = {}
+
+    def has_tail(tree):
+        return tree == n - 1 if isinstance(tree, int) else has_tail(tree[0]) or has_tail(tree[1])
+
+    def evaluate(tree, parent_has_tail=True):
         if isinstance(tree, int):
             return items[tree]
-        left = evaluate(tree[0])
-        right = evaluate(tree[1])
-        return left >> right
+        key = repr(tree)
+        mine = has_tail(tree)
+        if key in memo and not parent_has_tail:
+            # second round: the very same pending sub-chain object is used as an operand again (the outermost
+            # pending sub-chains are rebuilt from their parts, so that inner ones really are operands twice)
+            return memo[key]
+        left = evaluate(tree[0], mine)
+        right = evaluate(tree[1], mine)
+        out = left >> right
+        if not mine:
+            memo[key] = out
+        return out
 
-    try:
-        head = evaluate(case["tree"])
-    except Exception as err:
-        return [("chain %r raised %r" % (case["tree"], err), None)]
     problems = []
-    built = list(LOG)
+    # two rounds: templates and pending (grouped) sub-chains are values and may be used for several pipelines
+    for round_no in range(2):
+        if round_no == 1:
+            if not memo and n < 3:
+                break
+            if case["tail_form"] == "instance":
+                del LOG[:]
+                items[-1] = classes[-1](*elements[-1]["args"][0], **elements[-1]["args"][1])
+                prebuilt = list(LOG)
+            else:
+                prebuilt = []
+            del LOG[:]
+            result.count("chains_rebuilt_from_reused_templates")
+        try:
+            head = evaluate(case["tree"])
+        except Exception as err:
+            return [("chain %r raised %r%s" % (case["tree"], err, " when its templates were used a second time" if round_no else ""), None)]
+        found = verify_chain(case, classes, elements, items, head, list(LOG), prebuilt, n)
+        if found:
+            tag = " (second pipeline built from the same templates and pending sub-chains)" if round_no else ""
+            problems += [(what + tag, mech) for what, mech in found]
+            break
+    result.count("chains_checked")
+    result.count("chain_elements", n)
+    result.count("chains_tail_" + case["tail_form"])
+    return problems
+
+
+def verify_chain(case, classes, elements, items, head, built, prebuilt, n):
+    problems = []
     # walk the result
     chain = []
     obj = head
@@ -319,9 +359,6 @@ def run_chain(case, result):
     if len(built) != len(want_log) or any(a is not b for a, b in zip(built, want_log)):
         problems.append(("construction log %r, expected each element once, last to first: %r"
                          % ([type(o).__name__ for o in built], [type(o).__name__ for o in want_log]), None))
-    result.count("chains_checked")
-    result.count("chain_elements", n)
-    result.count("chains_tail_" + case["tail_form"])
     return problems
 
 
@@ -637,7 +674,7 @@ def run_shard(spec):
 
 
 def finish(total, tier):
-    for name in ("chains_checked", "chains_tail_instance", "chains_tail_template", "chains_tail_curried",
+    for name in ("chains_checked", "chains_rebuilt_from_reused_templates", "chains_tail_instance", "chains_tail_template", "chains_tail_curried",
                  "parenthesisations_exhaustive", "template_calls_checked", "calls_bindable", "calls_unbindable",
                  "shipped_chains_checked"):
         if not total.counters.get(name) and not total.violations:
